@@ -5,6 +5,7 @@ ContactlessFrontend over the real udp driver, on the simulated air.  Per-datagra
 {deliver, lose, corrupt} are scripted over the DEP phase of the conversation.
 """
 from dsim import core, kernel, simnet
+from dsim.refs import dep_wire
 from dsim.core import Violation
 
 ID = "C04"
@@ -66,9 +67,9 @@ def conversation(nfc, sim_seed_tag, cfg, P, Q, script, sim):
     def hook(src, dst, payload):
         d = parse_dep_datagram(payload)
         fate = simnet.DELIVER
-        if d is not None:
+        if d is not None and dep_wire.transport_data(*d) is not None:
             brty, frame = d
-            td = transport(brty, frame)
+            td = dep_wire.transport_data(brty, frame)
             if td[:2] == b"\xD4\x00" and len(td) >= 16:
                 state["lr"]["I"] = LR[td[15] >> 4 & 3]
             elif td[:2] == b"\xD5\x01" and len(td) >= 17:
